@@ -30,8 +30,8 @@ ALL_UNITS = ["U-overlap", "U-bigint", "U-constrain", "U-resolver", "U-iterate", 
 
 PROPERTIES = {
     "C01": {
-        "units": ["U-resolver", "U-bitvec"],
-        "claim": "Address bookkeeping, for all inputs: eval_address/get_address return addr_start + position / addr_unit, and a position that is not a whole number of addresses is rejected when guessing is forbidden; advance_address moves only the current bank, by exactly the size of the item before (instruction / data element / #res), to the next multiple for #align, and to (address - addr_start) * addr_unit for #addr; bits_until_alignment returns the least non-negative distance; resolve_label stores exactly the address of what follows; every defined bank has a positive address unit (proved at bankdef::define). BitVec::write_bigint writes a sized value MSB-first at [index, index+size) and changes no other bit.",
+        "units": ["U-resolver", "U-bitvec", "U-constrain"],
+        "claim": "Address bookkeeping, for all inputs: eval_address/get_address return addr_start + position / addr_unit, and a position that is not a whole number of addresses is rejected when guessing is forbidden; advance_address moves only the current bank, by exactly the size of the item before (instruction / data element / #res), to the next multiple for #align, and to (address - addr_start) * addr_unit for #addr; bits_until_alignment returns the least non-negative distance; resolve_label stores exactly the address of what follows; every defined bank has a positive address unit (proved at bankdef::define). BitVec::write_bigint writes a sized value MSB-first at [index, index+size) and changes no other bit. Typed arguments are accepted exactly on their range (check_and_constrain_argument, see C04).",
         "not_reached": "rule matching, argument evaluation, choice of the smallest encoding (resolve_encoding), parsing, data-directive evaluation, the loop of build_output that ties the checked pieces together",
         "trusted_base": NUMBIGINT_TB + REPORT_TB + RESOLVER_TB,
     },
